@@ -34,6 +34,8 @@ func c09(c *Ctx) (*report.Result, error) {
 		checkDeliver(c, res, f, spec.name, spec.getChan, spec.fwd, "O9.1")
 	}
 	checkNotifyMsg(c, res)
+	res.RuleDoc["O9.5"] = "a claim is stamped when it is made: every registration stores (and returns) that call's own time.Now() in localShards, so the stamp an incoming announcement is compared with is never older than the claim this instance last announced (a re-registration that keeps the old stamp lets a stale announcement evict the newest claim)"
+	checkFreshTokens(c, res, "O9.5")
 	checkLeave(c, res)
 	checkIntraSenders(c, res)
 
